@@ -40,6 +40,8 @@ Inductive case :=
 | CallSite (id : N) (kind : N) (l : list cfg) (nss : list string) (p : list nat) (out out' : list N)
 (* PushContext.EnvoyFilters(proxy): order of the matched filters (priority, config) for two listing orders *)
 | EnvoyF (id : N) (root : string) (l : list (Z * cfg)) (p : list nat) (out out' : list N)
+(* model.MostSpecificHostMatch over a wildcard map, called repeatedly: the distinct results seen ("" = no match) *)
+| HostMatch (id : N) (needle : string) (wild : list string) (obs : list string)
 (* EXPLORATION (no model): per-resource digests (name digest, bytes digest), sorted by type and name, of
    all CDS/LDS/RDS/EDS resources of one proxy for two runs that must agree. kind 0 = repeated generation
    on one server, 1 = same objects inserted in another order into a second server *)
@@ -53,7 +55,7 @@ Definition case_id c :=
   | SortSvc id _ _ _ _ _ | SortCfg id _ _ _ _ _ | CmpSvc id _ _ _ _ _ | CmpCfg id _ _ _ _ _
   | HostIdx id _ _ _ _ | Shards id _ _ _ _ | PickNs id _ _ _ | MergeVh id _ _ _
   | Locality id _ _ | Direct id _ _ _ | Order id _ _ _
-  | SidecarPick id _ _ _ _ _ _ _ | CallSite id _ _ _ _ _ _ | EnvoyF id _ _ _ _ _ => id
+  | SidecarPick id _ _ _ _ _ _ _ | CallSite id _ _ _ _ _ _ | EnvoyF id _ _ _ _ _ | HostMatch id _ _ _ => id
   end.
 
 (* ------------------------------------------------------------------ helpers *)
@@ -142,6 +144,13 @@ Definition all_equal {A} (eqb : A -> A -> bool) (l : list A) : bool :=
 
 Definition nn_eqb (a b : N * N) : bool := N.eqb (fst a) (fst b) && N.eqb (snd a) (snd b).
 
+(* strings.HasSuffix(needle, h[1:]) — case sensitive *)
+Definition is_suffix (suf s : string) : bool :=
+  Nat.leb (String.length suf) (String.length s)
+  && String.eqb (String.substring (String.length s - String.length suf) (String.length suf) s) suf.
+Definition wild_matches (needle h : string) : bool :=
+  match h with String _ t => is_suffix t needle | EmptyString => false end.
+
 (* ------------------------------------------------------------------ correspondence *)
 
 Definition model_ok (c : case) : bool :=
@@ -192,6 +201,13 @@ Definition model_ok (c : case) : bool :=
       valid_perm (List.length l) p
       && nlist_eqb (map c_tag (callsite_order kind nss l)) out
       && nlist_eqb (map c_tag (callsite_order kind nss (nth_all dcfg l p))) out'
+  | HostMatch _ needle wild obs =>
+      let cands := filter (wild_matches needle) wild in
+      negb (Nat.eqb (List.length obs) 0)
+      && forallb (fun o => match cands with
+                           | [] => String.eqb o ""
+                           | _ => existsb (String.eqb o) cands
+                           end) obs
   | EnvoyF _ root l p out out' =>
       valid_perm (List.length l) p
       && nlist_eqb (map (fun x => c_tag (snd x)) (sort_envoyfilters root l)) out
@@ -220,6 +236,7 @@ Definition prop_ok (c : case) : bool :=
   | SidecarPick _ _ _ _ _ _ obs obs' => option_eqb N.eqb obs obs'
   | CallSite _ _ _ _ _ out out' => nlist_eqb out out'
   | EnvoyF _ _ _ _ out out' => nlist_eqb out out'
+  | HostMatch _ _ _ obs => Nat.eqb (List.length obs) 1
   end.
 
 Definition mismatches := check_all case_id model_ok prop_ok.
